@@ -403,7 +403,11 @@ pub fn exec_op(ctx: &Arc<Ctx>, op: &Op, caller: usize, nested: bool, local: &mut
                 ctx.wait_all();
                 while s.verif_busy_count() > 0 { rt::thread::yield_now(); }
             }
-            let clean = quiet && single;
+            // 'at once' with every other caller inert (it only opens gates or yields) and nothing but plain desync/sync issued by this caller
+            // before: every scheduling call that could have read the old maximum has returned, the busy pool threads make their next ones
+            // after the store - despawn_threads_if_overloaded must still not return before the surplus threads are gone
+            let inert_others = !quiet && ctx.prog.callers.iter().enumerate().all(|(c, ops)| if c == caller { ops.iter().all(|o| matches!(o, Op::Desync(_, _) | Op::Sync(_, _) | Op::SetMax(_) | Op::Yield(_) | Op::Open(_))) } else { ops.iter().all(|o| matches!(o, Op::Open(_) | Op::Yield(_))) });
+            let clean = (quiet && single) || inert_others;
             if n > ctx.max_ever.load(SeqCst) { ctx.max_ever.store(n, SeqCst); }
             desync::verif::log("api", "SETMAX", n, String::new());
             // on real threads the real entry point (its wake-up loop does not terminate under an unfair controlled scheduler, which is why
@@ -416,7 +420,7 @@ pub fn exec_op(ctx: &Arc<Ctx>, op: &Op, caller: usize, nested: bool, local: &mut
                 if !clean { ctx.racy_max_change.store(true, SeqCst); }
                 s.despawn_threads_if_overloaded();
                 let (owned, live) = (s.verif_thread_count(), desync::verif::thread::live_named_threads().0);
-                if clean && (owned > n || live > n) { ctx.error("C17", format!("maximum lowered from {} to {} between phases and despawn_threads_if_overloaded returned: {} pool threads owned, {} alive", old, n, owned, live)); }
+                if clean && (owned > n || live > n) { ctx.error("C17", format!("maximum lowered from {} to {} with no scheduling call in flight and despawn_threads_if_overloaded returned: {} pool threads owned, {} alive", old, n, owned, live)); }
             }
             // raising the maximum: set_max_threads starts threads for whatever is waiting in the schedule (its loop, bounded here)
             #[cfg(not(desync_verif_real))]
